@@ -15,14 +15,15 @@
 
    The full statement ("for EVERY structure whose write succeeds") is false of the faithful model;
    the refuted classes are exhibited below ([*_refuted], replayed on the real code by the harness):
-     F-C01-2  an empty GlobalLayerMaskInfo followed by fewer than 13 bytes in the rest of the file
-              is not read back (is_readable(fp, 17) looks past the section) - genuine defect;
+     F-C01-2  (FIXED in /repo by f3a2729, the guard is gone from wf) an empty GlobalLayerMaskInfo followed by
+              fewer than 13 bytes in the rest of the file was not read back (is_readable(fp, 17) looked past
+              the section); kept as [psd_roundtrip_refuted_before_f3a2729] about the old reader (Psd/Legacy.v);
      F-C01-3  MaskData with both feather parameters and no "real" fields is >= 36 bytes long and is
               read back as if it had the real fields - genuine defect (reader heuristic);
    and the structures that are not well-formed documents (their parts contradict each other, the
    format has no place for the distinction): tagged_blocks=None beside a layer info, layer_count=0
    with (empty) lists, opacity/kind without overlay colour, presence flag without parameters. *)
-From PsdV Require Import Base.Prelude Psd.Codec Psd.Model Psd.Proofs Psd.Leaf Psd.LeafProofs Psd.Descriptor Psd.DescriptorProofs Psd.Effects Psd.EffectsProofs
+From PsdV Require Import Base.Prelude Psd.Codec Psd.Model Psd.Legacy Psd.Proofs Psd.Leaf Psd.LeafProofs Psd.Descriptor Psd.DescriptorProofs Psd.Effects Psd.EffectsProofs
   Psd.Patterns Psd.PatternsProofs.
 From Coq Require Import ZArith List Bool Lia.
 Import ListNotations.
@@ -406,23 +407,29 @@ Proof.
 Qed.
 Print Assumptions mask_data_roundtrip_refuted.
 
-(* F-C01-2: 1x1 document, a layer info, an empty global layer mask info, 3 bytes of merged image:
-   the global layer mask info is not read back, and the re-read structure re-writes DIFFERENTLY *)
+(* F-C01-2 (FIXED by /repo f3a2729; documentation): with the reader as it was before the fix (Psd/Legacy.v,
+   a 17-byte probe into the rest of the file) a 1x1 document with a layer info, an empty global layer mask info and
+   3 bytes of merged image lost the global layer mask info and re-wrote DIFFERENTLY.  With the current reader the
+   same document is well-formed and round-trips (second half). *)
 Definition cx_doc_glmi : psd :=
   mkPSD (mkHeader sig_8BPS 1 1 1 1 8 1) [] []
         (mkLAMI (Some (mkLI 0 None None)) (Some glmi_empty) (Some []))
         (mkCD 0 [0]).
-Theorem psd_roundtrip_refuted :
-  exists d bs n d' bs' n',
+Theorem psd_roundtrip_refuted_before_f3a2729 :
+  (exists d bs n d' bs' n',
     glmi_guard (h_version (p_header d)) (p_lami d) (2 + len (cd_data (p_img d))) = false /\
-    write_psd raw_codec 4 d = Ok (bs, n) /\ read_psd raw_codec bs = Ok d' /\
-    d' <> psd_after_write d /\ write_psd raw_codec 4 d' = Ok (bs', n') /\ bs' <> bs.
+    write_psd raw_codec 4 d = Ok (bs, n) /\ read_psd_v0 raw_codec bs = Ok d' /\
+    d' <> psd_after_write d /\ write_psd raw_codec 4 d' = Ok (bs', n') /\ bs' <> bs) /\
+  wf_psd raw_codec raw_codec cx_doc_glmi = true /\
+  (exists bs n, write_psd raw_codec 4 cx_doc_glmi = Ok (bs, n) /\ read_psd raw_codec bs = Ok cx_doc_glmi).
 Proof.
-  exists cx_doc_glmi. do 5 eexists. split; [vm_compute; reflexivity|].
-  split; [vm_compute; reflexivity|]. split; [vm_compute; reflexivity|].
-  split; [discriminate|]. split; [vm_compute; reflexivity|]. discriminate.
+  split.
+  { exists cx_doc_glmi. do 5 eexists. split; [vm_compute; reflexivity|].
+    split; [vm_compute; reflexivity|]. split; [vm_compute; reflexivity|].
+    split; [discriminate|]. split; [vm_compute; reflexivity|]. discriminate. }
+  split; [vm_compute; reflexivity|]. do 2 eexists. split; [vm_compute; reflexivity|]. vm_compute. reflexivity.
 Qed.
-Print Assumptions psd_roundtrip_refuted.
+Print Assumptions psd_roundtrip_refuted_before_f3a2729.
 
 (* not well-formed documents: why wf asks for these coherences (each is re-read as the normal form
    of the same content, and the normal form IS well-formed and stable) *)
